@@ -139,7 +139,28 @@ func c15Model(conn, reqIdx int, actions []string) (accept [][]string) {
 	return
 }
 
+// isRejected: a request that the executor must reject as a whole (no handler runs).
+func isRejected(actions []string) (string, bool) {
+	if len(actions) >= 1 && strings.HasPrefix(actions[0], "reject:") {
+		return actions[0][7:], true
+	}
+	return "", false
+}
+
 func c15Request(conn, reqIdx int, actions []string) *kmip.RequestMessage {
+	if kind, rej := isRejected(actions); rej {
+		m := kmip.NewRequestMessage(kmip.V1_4, &payloads.ActivateRequestPayload{UniqueIdentifier: fmt.Sprintf("c%dr%di0#set", conn, reqIdx)},
+			&payloads.ActivateRequestPayload{UniqueIdentifier: fmt.Sprintf("c%dr%di1#read", conn, reqIdx)})
+		switch kind {
+		case "version":
+			m.Header.ProtocolVersion = kmip.ProtocolVersion{ProtocolVersionMajor: 3, ProtocolVersionMinor: 0}
+		case "count":
+			m.Header.BatchCount = 7
+		default:
+			m.Header.BatchErrorContinuationOption = kmip.BatchErrorContinuationOptionUndo
+		}
+		return &m
+	}
 	var pls []kmip.OperationPayload
 	for i, a := range actions {
 		pls = append(pls, &payloads.ActivateRequestPayload{UniqueIdentifier: fmt.Sprintf("c%dr%di%d#%s", conn, reqIdx, i, a)})
@@ -149,6 +170,12 @@ func c15Request(conn, reqIdx int, actions []string) *kmip.RequestMessage {
 }
 
 func c15Check(conn, reqIdx int, actions []string, resp *kmip.ResponseMessage) error {
+	if _, rej := isRejected(actions); rej {
+		if resp == nil || len(resp.BatchItem) != 1 || resp.BatchItem[0].ResultStatus == kmip.ResultStatusSuccess {
+			return fmt.Errorf("conn %d request %d: a request that must be rejected as a whole was not", conn, reqIdx)
+		}
+		return nil
+	}
 	accept := c15Model(conn, reqIdx, actions)
 	if resp == nil || len(resp.BatchItem) != len(actions) {
 		return fmt.Errorf("conn %d request %d: response has wrong item count", conn, reqIdx)
@@ -197,9 +224,11 @@ func c15Check(conn, reqIdx int, actions []string, resp *kmip.ResponseMessage) er
 
 func syncCount(c c15Case) int {
 	n := 0
-	for _, a := range c.Conns[0][0] {
-		if a == "sync" {
-			n++
+	for _, req := range c.Conns[0] {
+		for _, a := range req {
+			if a == "sync" {
+				n++
+			}
 		}
 	}
 	return n
@@ -297,7 +326,7 @@ func c15Run(t *testing.T, c c15Case) (sig string, err error) {
 
 func TestC15Placeholder(t *testing.T) {
 	const name = "TestC15Placeholder"
-	rec := evid.New("C15", name, "1..4 connections (through a real Server over an in-memory listener in a synctest bubble) or 2..6 goroutines calling HandleRequest directly, each issuing 1..4 requests of 1..6 placeholder actions (set / read / read-or-id / clear / fail / set-then-fail); "+
+	rec := evid.New("C15", name, "1..4 connections (through a real Server over an in-memory listener in a synctest bubble) or 2..6 goroutines calling HandleRequest directly, each issuing 0..2 requests that are rejected at message level (unsupported version, batch count mismatch, Undo) followed by 1..4 requests of 1..6 placeholder actions (set / read / read-or-id / clear / fail / set-then-fail); "+
 		"rendezvous items inside the first request of every connection force the requests to overlap in time at chosen items; values are unique per request; oracle: per-request placeholder model (empty at start, set visible to later items, never a foreign value); "+
 		"non-trivial = set followed by read in a request that overlaps another one, or a second request on a connection after a set; distinct by case").Attach(t)
 	if rp := evid.LoadReplay(name); rp != nil {
@@ -325,13 +354,18 @@ func TestC15Placeholder(t *testing.T) {
 		for ci := 0; ci < nconn; ci++ {
 			nreq := rapid.IntRange(1, 4).Draw(rt, "requests")
 			var reqs [][]string
-			for ri := 0; ri < nreq; ri++ {
+			// prologue: requests rejected at message level (unsupported version, batch count mismatch, Undo)
+			for k := rapid.SampledFrom([]int{0, 0, 1, 1, 2}).Draw(rt, "rejected"); k > 0; k-- {
+				reqs = append(reqs, []string{"reject:" + rapid.SampledFrom([]string{"version", "count", "undo"}).Draw(rt, "rejectkind")})
+			}
+			pro := len(reqs)
+			for ri := pro; ri < pro+nreq; ri++ {
 				n := rapid.IntRange(1, 6).Draw(rt, "items")
 				var as []string
 				for i := 0; i < n; i++ {
 					as = append(as, rapid.SampledFrom(actions).Draw(rt, "action"))
 				}
-				if ri == 0 {
+				if ri == pro {
 					// interleave exactly `syncs` rendezvous items at drawn positions
 					for s := 0; s < syncs; s++ {
 						p := rapid.IntRange(0, len(as)).Draw(rt, "syncpos")
@@ -343,11 +377,11 @@ func TestC15Placeholder(t *testing.T) {
 					if a == "set" {
 						sawSet = true
 					}
-					if sawSet && (a == "read" || a == "readorid") && (syncs > 0 || ri > 0) {
+					if sawSet && (a == "read" || a == "readorid") && (syncs > 0 || ri > pro) {
 						nt = true
 					}
 				}
-				if ri > 0 {
+				if ri > pro {
 					for _, a := range reqs[ri-1] {
 						if a == "set" {
 							nt = true
